@@ -486,9 +486,31 @@ def r43(ctx, R, rule='R4.3'):
         isinstance(x, ast.Call) and isinstance(x.func, ast.Attribute)
         and x.func.attr == 'delete' and src(x.func.value) == src(
             loops[0].target) for x in own_nodes_of(loops[0]))
+    whyd = 'loop shape'
+    if okd:
+        # ... under no condition, and as the first thing that can fail in
+        # its iteration (a look at the record first - "is it still ours?" -
+        # compares the stored generation with the one a rolled-back write
+        # left in the object, and keeps the record of a refused request)
+        lp = loops[0]
+        dl = [x for x in own_nodes_of(lp) if isinstance(x, ast.Call)
+              and isinstance(x.func, ast.Attribute)
+              and x.func.attr == 'delete'
+              and src(x.func.value) == src(lp.target)]
+        st = C.stmt_of(dl[0])
+        ifs = C.guarding_ifs(st, lp)
+        before = [c_ for c_ in own_nodes_of(lp) if isinstance(c_, ast.Call)
+                  and (c_.lineno, c_.col_offset) < (
+                      dl[0].lineno, dl[0].col_offset)
+                  and not src(c_.func).startswith('LOG.')]
+        if ifs or before:
+            okd = False
+            whyd = 'the delete is conditional on %s / preceded by %s' % (
+                [src(i[0].test)[:50] for i in ifs],
+                [src(c_)[:50] for c_ in before])
     R.ob(rule, 'delete_consumers:all-elements', okd,
-         'delete_consumers() calls .delete() on every consumer passed',
-         'loop shape', func=dcf)
+         'delete_consumers() calls .delete() on every consumer passed, '
+         'unconditionally', whyd, func=dcf)
     return n
 
 
